@@ -72,6 +72,7 @@ class SymSpec(object):
         srt = {"int": z3.IntSort(), "real": z3.RealSort(), "bool": z3.BoolSort(), "str": z3.IntSort()}[elem]
         f = z3.Function(name, z3.IntSort(), srt)
         arr = symnp.ndarray.from_fn(lambda i: f(zint(i)), (n,), kind, elem, name=name)
+        arr.buf.tags["func"] = (f, arr.buf.fn)
         if kind == "i" and elem == "real" and isinstance(n, int):
             for i in range(n):           # bounded mode: counterexamples must be genuine integer labels
                 self.ctx.add(z3.IsInt(f(i)))
@@ -94,12 +95,19 @@ class SymSpec(object):
     def fresh_int(self, name):
         return SymInt(z3.Int(name))
 
+    def fresh_length(self, name):
+        t = z3.Int(name)
+        self.ctx.add(t >= 0)
+        return SymInt(t)
+
     def fresh_array1d(self, name, kind, n):
         elem = {"i": "real", "I": "int", "f": "real", "b": "bool", "O": "str"}[kind]
         kind = "i" if kind == "I" else kind
         srt = {"int": z3.IntSort(), "real": z3.RealSort(), "bool": z3.BoolSort(), "str": z3.IntSort()}[elem]
         f = z3.Function(name, z3.IntSort(), srt)
-        return symnp.ndarray.from_fn(lambda i: f(zint(i)), (n,), kind, elem, name=name)
+        r = symnp.ndarray.from_fn(lambda i: f(zint(i)), (n,), kind, elem, name=name)
+        r.buf.tags["func"] = (f, r.buf.fn)
+        return r
 
     def tag(self, arr, key, value):
         arr.buf.tags[key] = value
@@ -170,6 +178,14 @@ class SymSpec(object):
         """strictly increasing enumeration of the true positions (the library's own definition)"""
         return symnp.mask_positions(mask)
 
+    def isin(self, a, b):
+        """boolean array: a[i] occurs in b (NumPy's isin; the library contract carries an explicit witness)"""
+        return symnp.isin(a, b)
+
+    def sort_rank(self, arr):
+        """rank[p] = position of element p in NumPy's argsort order (the inverse permutation of np.argsort)"""
+        return symnp.argsort(arr).buf.tags["inverse"]
+
     def calls(self, contract_name):
         """results of the callee contracts used on this path: [(case, env, result)]"""
         return [c for c in self.ctx.calls if c[0] == contract_name]
@@ -190,9 +206,19 @@ class SymSpec(object):
     def kind(self, arr):
         return arr.kind
 
+    def isnan(self, x):
+        if isinstance(x, SymReal):
+            return mkbool(sym.ISNAN(x.t))
+        if isinstance(x, float):
+            return x != x
+        return False
+
     def snapshot(self, arr):
         """frozen copy of an array's current content (for old(.) in postconditions)"""
-        return symnp.ndarray.from_fn(arr.snapshot(), arr._shape, arr.kind, arr.elem)
+        r = symnp.ndarray.from_fn(arr.snapshot(), arr._shape, arr.kind, arr.elem)
+        if arr.imap is None and "func" in arr.buf.tags and arr.buf.tags["func"][1] is arr.buf.fn:
+            r.buf.tags["func"] = (arr.buf.tags["func"][0], r.buf.fn)
+        return r
 
     def concrete_array(self, data):
         return symnp.asarray(data)
